@@ -112,4 +112,3 @@ func printMap(name string, m map[string]int) {
 		fmt.Printf("  %-45s %d\n", k, m[k])
 	}
 }
-
